@@ -1,0 +1,70 @@
+//! Verification hooks (compiled only with `--cfg egglog_verif`): seeded
+//! schedule-perturbation points used by the runtime monitors in /verif.
+//!
+//! `perturb` is a no-op until a harness calls [`arm`]. When armed, each call
+//! draws from a per-thread PRNG derived from the global seed and either does
+//! nothing, yields, spins or sleeps briefly. Points are placed only between
+//! critical sections or at existing blocking points.
+use std::cell::Cell;
+use std::sync::atomic::{AtomicU64, Ordering};
+
+static SEED: AtomicU64 = AtomicU64::new(0);
+static HITS: AtomicU64 = AtomicU64::new(0);
+static THREAD_CTR: AtomicU64 = AtomicU64::new(1);
+
+thread_local! {
+    static STATE: Cell<u64> = const { Cell::new(0) };
+}
+
+/// Arm the perturbation points with `seed` (0 disarms).
+pub fn arm(seed: u64) {
+    SEED.store(seed, Ordering::SeqCst);
+}
+
+/// Disarm all perturbation points.
+pub fn disarm() {
+    SEED.store(0, Ordering::SeqCst);
+}
+
+/// Number of perturbation points passed while armed.
+pub fn hits() -> u64 {
+    HITS.load(Ordering::Relaxed)
+}
+
+#[inline]
+pub fn perturb(point: u32) {
+    let seed = SEED.load(Ordering::Relaxed);
+    if seed == 0 {
+        return;
+    }
+    HITS.fetch_add(1, Ordering::Relaxed);
+    let r = STATE.with(|s| {
+        let mut x = s.get();
+        if x == 0 {
+            let t = THREAD_CTR.fetch_add(1, Ordering::Relaxed);
+            x = seed ^ t.wrapping_mul(0x9E3779B97F4A7C15) ^ ((point as u64) << 32) | 1;
+        }
+        x ^= x << 13;
+        x ^= x >> 7;
+        x ^= x << 17;
+        s.set(x);
+        x
+    });
+    match r % 16 {
+        0..=8 => {}
+        9..=12 => std::thread::yield_now(),
+        13..=14 => {
+            let n = 20 + (r >> 8) % 400;
+            for _ in 0..n {
+                std::hint::spin_loop();
+            }
+        }
+        _ => {
+            if cfg!(miri) {
+                std::thread::yield_now();
+            } else {
+                std::thread::sleep(std::time::Duration::from_micros(5 + (r >> 8) % 60));
+            }
+        }
+    }
+}
